@@ -255,6 +255,41 @@ func runC15(c *rt.Ctx) {
 			w.ClassN("leap-window-year", 1)
 		}
 	})
+	// bounds aligned with calendar units (a whole year, a whole month, a quarter) and bounds one or two
+	// days short of them, probed on both sides of every unit boundary: an implementation that answers
+	// "whole years" or "whole months" by comparing years or months only goes wrong exactly here
+	c.Parallel("calendar-aligned-bounds", 0, func(w *rt.W) {
+		years := []int64{-401, -400, -100, -4, -1, 0, 1, 4, 99, 100, 400, 1899, 1900, 1996, 1999, 2000, 2019, 2020, 2023, 2024, 2100, 2400, 9995, 9996, 10000, 102500, 4194304}
+		spans := []int64{0, 1, 2, 3, 4, 100}
+		n := 0
+		for _, fy := range years {
+			for _, sp := range spans {
+				n++
+				if n%w.NShards != w.Shard {
+					continue
+				}
+				ty := fy + sp
+				var starts, ends []int64
+				for m := 1; m <= 12; m++ {
+					starts = append(starts, ref.Ordinal(fy, m, 1))
+					last := ref.Ordinal(ty, m, ref.DaysIn(ty, m))
+					ends = append(ends, last, last-1, last-2, last+1)
+				}
+				starts = append(starts, ref.Ordinal(fy, 1, 1)-1, ref.Ordinal(fy, 1, 2), ref.Ordinal(fy, 2, 28), ref.Ordinal(fy, 3, 1)-1)
+				for _, from := range starts {
+					for _, to := range ends {
+						probes := []int64{from - 2, from - 1, from, from + 1, to - 2, to - 1, to, to + 1, to + 2,
+							ref.Ordinal(ty, 12, 30), ref.Ordinal(ty, 12, 31), ref.Ordinal(ty+1, 1, 1), ref.Ordinal(ty, 1, 1), ref.Ordinal(ty, 1, 1) - 1,
+							ref.Ordinal(fy, 1, 1), ref.Ordinal(fy, 1, 1) - 1, ref.Ordinal(fy, 12, 31), ref.Ordinal(fy, 3, 1) - 1, ref.Ordinal(ty, 3, 1) - 1, ref.Ordinal(ty, 3, 1)}
+						c15Case(w, from, to, (from+to)/2, false, false, probes...)
+						w.NT(1)
+					}
+				}
+				w.ClassN("calendar-aligned-year-pair", 1)
+			}
+		}
+	})
+	c.Require("calendar-aligned-year-pair", 150)
 	c.Require("leap-window-year", 16)
 	c.Require("far-year-bounds", 1000)
 	// a filter is probed repeatedly: the answer must not depend on what was asked before
